@@ -86,3 +86,20 @@ Proof.
   destruct (run_frame w es s K) as [_ IN].
   eapply index_get_some; [apply IN; exact I|]. unfold loc_valid. lia.
 Qed.
+
+Theorem reachable_kinv w es : kinv (w_cfg w) (proj (fst (run w (init_state (w_cfg w)) es))).
+Proof.
+  destruct (run_frame w es (init_state (w_cfg w)) (kinv_init _)) as [R _].
+  exact (creach_kinv _ _ _ R (kinv_init _)).
+Qed.
+
+Theorem nonold_block_survives_reachable w es0 es T :
+  let s := fst (run w (init_state (w_cfg w)) es0) in
+  let s' := fst (run w s es) in
+  s_tbr s <= T -> s_released s + N.of_nat (s_old s) <= T ->
+  T < s_released s + N.of_nat (length (s_blocks s)) ->
+  s_negs s' = s_negs s -> (s_pushbacks s' - s_pushbacks s <= c_old (w_cfg w))%nat ->
+  s_tbr s' <= T /\ s_released s' <= T /\ T < s_released s' + N.of_nat (length (s_blocks s')).
+Proof.
+  cbv zeta. intros. apply nonold_block_survives; auto. apply reachable_kinv.
+Qed.
